@@ -279,3 +279,7 @@ def run(ctx):
     r2_6(ctx)
     r2_7(ctx)
     r2_8(ctx)
+    # "FINISHED at the first step after its remaining work reached zero, dependencies permitting": the finish check must be closed
+    # over FF/SF chains of tasks that reach zero in the same step (shared with C06)
+    from .C06 import r6_4
+    r6_4(ctx)
